@@ -173,7 +173,7 @@ pub fn gen_scenario(seed: u64, profile: Profile) -> Scenario {
         }
     } as u32;
     let big_ok = n_streams <= 2 && rng.chance(1, 3);
-    let streams = (0..n_streams).map(|i| gen_stream(&mut rng, i + 1, &cfg, profile, big_ok)).collect();
+    let streams: Vec<StreamPlan> = (0..n_streams).map(|i| gen_stream(&mut rng, i + 1, &cfg, profile, big_ok)).collect();
     let n_dg = match profile {
         Profile::Dgram => rng.range(1, 40) as usize,
         Profile::Bytes | Profile::Progress => {
@@ -204,6 +204,31 @@ pub fn gen_scenario(seed: u64, profile: Profile) -> Scenario {
             };
         }
     }
+    // (a generator that repeats an id in use is exercised by `dup_id_case`, where the first stream is known to be alive)
+    let mut scripted_ids: [Vec<u32>; 2] = [vec![], vec![]];
+    {
+        let mut r2 = Rng64::new(mix(seed, 0x1D5));
+        for e in 0..2u8 {
+            let at_zero = {
+                let v: &Vec<StreamPlan> = &streams;
+                v.iter().filter(|p| p.opener == e && p.open_delay == 0).count()
+            };
+            if profile == Profile::Dgram {
+                // datagram profile: predictable, distinct stream ids, so that datagrams can carry the flow id of a live stream
+                scripted_ids[e as usize] = (0..at_zero).map(|_| (r2.next() as u32) | 1).collect();
+            }
+        }
+        if profile == Profile::Dgram {
+            let live: Vec<u32> = scripted_ids.iter().flatten().copied().collect();
+            if !live.is_empty() {
+                for d in dgrams.iter_mut() {
+                    if r2.chance(1, 3) {
+                        d.flow_id = *r2.pick(&live);
+                    }
+                }
+            }
+        }
+    }
     Scenario {
         seed,
         cfg,
@@ -217,6 +242,7 @@ pub fn gen_scenario(seed: u64, profile: Profile) -> Scenario {
         faults: [None, None],
         drop_first: rng.below(3) as u8,
         binds: vec![],
+        scripted_ids,
     }
 }
 
@@ -303,6 +329,98 @@ pub fn execute(st: &mut Stats, spec: &FamilySpec, sc: &Scenario, meta: &Meta, or
     counters
 }
 
+/// C02, no cross-talk: the opener's flow-id generator yields the id of a stream that is alive on both ends. The id must be
+/// skipped; both streams then carry their own data, concurrently, to the end.
+pub fn dup_id_case(st: &mut Stats, seed: u64) {
+    use tokio::io::{AsyncReadExt, AsyncWriteExt};
+    st.evaluations += 1;
+    st.engine("SIM", 1);
+    let mut rng = Rng64::new(mix(seed, 0xD0B));
+    let cfg = [gen_cfg(&mut rng, Profile::Bytes), gen_cfg(&mut rng, Profile::Bytes)];
+    let x = (rng.next() as u32) | 1;
+    let copies = rng.range(1, 3) as usize;
+    let n_bytes = [rng.range(1, 4000) as usize, rng.range(1, 4000) as usize];
+    let chunk = *rng.pick(&[1usize, 7, 100, 1000]);
+    let opener = rng.below(2) as usize;
+    let caps = [*rng.pick(&[0usize, 1, 4]), *rng.pick(&[0usize, 1, 4])];
+    let sh = sim::Shared::new(mix(seed, 13), rng.below(4) as u8);
+    let cfg2 = cfg.clone();
+    let end = sim::run(&sh, move |sh| async move {
+        let (eps, _net) = wl::connect(&sh, [&cfg2[0], &cfg2[1]], caps, [None, None], seed, true);
+        let (o, a) = (&eps[opener], &eps[1 - opener]);
+        // stream A takes id x
+        o.rng.push(&[x]);
+        let a_o = o.mux.new_stream_channel(b"a.", 1).await.expect("open a");
+        let a_a = a.mux.accept_stream_channel().await.expect("accept a");
+        let id_a = a_o.verif_flow_id();
+        sim::quiesce().await;
+        // the generator repeats itself while A is alive on both ends
+        o.rng.push(&vec![x; copies]);
+        let b_o = o.mux.new_stream_channel(b"b.", 2).await;
+        let b_a = tokio::time::timeout(std::time::Duration::from_millis(5), a.mux.accept_stream_channel()).await;
+        let (Ok(b_o), Ok(Ok(b_a))) = (b_o, b_a) else {
+            return Err("the second stream could not be opened".to_string());
+        };
+        let id_b = b_o.verif_flow_id();
+        // both streams carry their own data from the opener to the acceptor, interleaved
+        let mut res = Vec::new();
+        let mut tasks = Vec::new();
+        for (k, (mut w, mut r)) in [(a_o, a_a), (b_o, b_a)].into_iter().enumerate() {
+            let key = mix(seed, 0xAB0 + k as u64);
+            let n = n_bytes[k];
+            tasks.push((sim::spawn(&sh, 5000 + k as u64, async move {
+                let data = crate::util::prf_vec(key, 0, n);
+                for c in data.chunks(chunk) {
+                    if w.write_all(c).await.is_err() {
+                        return false;
+                    }
+                }
+                w.shutdown().await.is_ok()
+            }), sim::spawn(&sh, 6000 + k as u64, async move {
+                let mut got = Vec::new();
+                let ok = r.read_to_end(&mut got).await.is_ok();
+                (ok, got.len(), crate::util::prf_mismatch(key, 0, &got))
+            })));
+        }
+        for (w, r) in tasks {
+            let wr = w.await.ok().flatten().unwrap_or(false);
+            let rd = r.await.ok().flatten().unwrap_or((false, 0, None));
+            res.push((wr, rd));
+        }
+        let [e0, e1] = eps;
+        sh.api(0, 0, sim::Api::MuxDrop);
+        drop(e0.mux);
+        e0.task.await.ok();
+        drop(e1.mux);
+        e1.task.await.ok();
+        Ok((id_a, id_b, res))
+    });
+    let log = sh.take_log();
+    let replay = |extra: String| json!({"kind": "c02-dup-id", "run_seed": seed, "note": extra, "trace_tail": sim::render(&log, 80)});
+    match end {
+        sim::RunEnd::Finished(Ok((id_a, id_b, res))) => {
+            st.target("generator_repeats_live_id_runs", 1);
+            st.nontrivial(mix(sh.hash(), u64::from(id_a)));
+            if id_a == id_b {
+                st.violation(Violation { signature: "live-id-proposed-again|dup-id".into(), detail: format!("the generator repeated id {id_a:x} while the stream using it was alive, and the second stream was given the same id"), replay: replay(String::new()) });
+            }
+            for (k, (wr, (rd_ok, got, bad))) in res.iter().enumerate() {
+                let name = if k == 0 { "first (the id's owner)" } else { "second" };
+                if !wr || !rd_ok || *got != n_bytes[k] || bad.is_some() {
+                    st.violation(Violation {
+                        signature: format!("cross-talk-or-loss|dup-id|stream{k}"),
+                        detail: format!("two streams open at once, the generator had repeated the first one's id: the {name} stream's writer finished cleanly = {wr}, its reader got {got} of {} bytes (read ok = {rd_ok}), first wrong byte at {bad:?}", n_bytes[k]),
+                        replay: replay(format!("{res:?}")),
+                    });
+                }
+            }
+        }
+        sim::RunEnd::Finished(Err(e)) => st.violation(Violation { signature: "open-failed|dup-id".into(), detail: format!("the generator repeated the id of a live stream {copies} time(s) (retries allowed: 3): {e}"), replay: replay(e.clone()) }),
+        sim::RunEnd::Stalled => st.violation(Violation { signature: "stall|dup-id".into(), detail: "two streams with a repeated id proposal: the run stalled".into(), replay: replay("stalled".into()) }),
+        sim::RunEnd::Panicked(m) => st.inconclusive.push(format!("harness panic in c02 dup-id: {m}")),
+    }
+}
+
 pub fn run_family(p: &Params, spec: &FamilySpec) -> (Stats, &'static str) {
     std::panic::set_hook(Box::new(|_| {}));
     sim::install_observer();
@@ -316,6 +434,20 @@ pub fn run_family(p: &Params, spec: &FamilySpec) -> (Stats, &'static str) {
     let spec = if thr { &thr_spec } else { spec };
     for i in 0..n {
         let seed = mix(base, i);
+        if !thr && spec.property == "C02" && i % 16 == 15 {
+            dup_id_case(&mut st, seed);
+            if st.too_many_violations() {
+                break;
+            }
+            continue;
+        }
+        if !thr && spec.property == "C05" && i % 8 == 7 {
+            crate::c05x::held_case(&mut st, seed);
+            if st.too_many_violations() {
+                break;
+            }
+            continue;
+        }
         let mut sc = gen_scenario(seed, spec.profile);
         if thr {
             // keep real-time runs short: no long sleeps
@@ -425,7 +557,7 @@ pub const C02: FamilySpec = FamilySpec {
     property: "C02",
     cmd: "c02",
     profile: Profile::Bytes,
-    fams: &[Fam::Bytes, Fam::Panic],
+    fams: &[Fam::Bytes, Fam::Alive, Fam::Panic],
     stall_is_violation: false,
     runs_quick: 24_000,
     runs_thorough: 1_600_000,
@@ -438,7 +570,7 @@ pub const C03: FamilySpec = FamilySpec {
     property: "C03",
     cmd: "c03",
     profile: Profile::Credit,
-    fams: &[Fam::Credit, Fam::Panic],
+    fams: &[Fam::Credit, Fam::Alive, Fam::Panic],
     stall_is_violation: false,
     runs_quick: 24_000,
     runs_thorough: 1_600_000,
@@ -450,10 +582,10 @@ pub const C05: FamilySpec = FamilySpec {
     property: "C05",
     cmd: "c05",
     profile: Profile::Eos,
-    fams: &[Fam::Eos, Fam::Panic],
+    fams: &[Fam::Eos, Fam::Alive, Fam::Panic],
     stall_is_violation: false,
     runs_quick: 24_000,
-    runs_thorough: 1_600_000,
+    runs_thorough: 6_400_000,
     rule: "one case = one execution of a seeded scenario of writes (including zero-length and all-empty vectored ones), shutdowns, drops and reads on both ends of 1-8 streams; \
 the history is checked against a pipe-with-half-close model (EOF only after the peer finished/aborted/connection end and after all bytes written before a clean shutdown; writes after local shutdown or delivered peer Reset must fail with BrokenPipe); \
 non-trivial = a reader observed end-of-stream",
